@@ -288,7 +288,7 @@ def cid(name):
     if n.startswith('"'): n = n[1:-1]
     return re.sub(r'[^A-Za-z0-9_]', '_', n)
 
-RENAME = {'@div': '__vx_div'}     # C library names whose IR-level (ABI-coerced) type clashes with the libc header declaration
+RENAME = {'@div': '__vx_div', '@abs': '__vx_abs', '@labs': '__vx_labs'}     # C library names whose IR-level (ABI-coerced) type clashes with the libc header declaration
 
 def gname(name):
     if name in RENAME: return RENAME[name]
@@ -565,12 +565,12 @@ BUILTIN_DECL = {'@malloc', '@free', '@calloc', '@realloc', '@memcpy', '@memset',
                 '@strcmp', '@strncmp', '@abort',
                 '@__CPROVER_assume', '@__CPROVER_assert', '@__gxx_personality_v0', '@__dynamic_cast'}
 # calls after which no "exception pending" test is emitted
-NOTHROW = {'@div', '@malloc', '@free', '@calloc', '@realloc', '@__CPROVER_assume', '@__CPROVER_assert', '@__cxa_begin_catch', '@__cxa_end_catch',
+NOTHROW = {'@div', '@abs', '@labs', '@malloc', '@free', '@calloc', '@realloc', '@__CPROVER_assume', '@__CPROVER_assert', '@__cxa_begin_catch', '@__cxa_end_catch',
            '@__cxa_allocate_exception', '@__cxa_free_exception', '@memcmp', '@bcmp', '@strlen', '@memchr', '@strcmp', '@strncmp',
            '@__cxa_guard_acquire', '@__cxa_guard_release', '@__cxa_guard_abort', '@__cxa_atexit', '@__dynamic_cast', '@abort',
            '@__cxa_pure_virtual', '@_ZSt9terminatev', '@__clang_call_terminate'}
 # runtime-model functions implemented in cxxrt.c (the IR only declares them)
-RUNTIME = {'@div', '@__cxa_allocate_exception', '@__cxa_free_exception', '@__cxa_throw', '@__cxa_begin_catch', '@__cxa_end_catch',
+RUNTIME = {'@div', '@abs', '@labs', '@__cxa_allocate_exception', '@__cxa_free_exception', '@__cxa_throw', '@__cxa_begin_catch', '@__cxa_end_catch',
            '@__cxa_rethrow', '@_ZSt9terminatev', '@__cxa_pure_virtual', '@_ZdlPv', '@_ZdaPv', '@_Znwm', '@_Znam', '@_ZdlPvm', '@_ZdaPvm',
            '@__cxa_guard_acquire', '@__cxa_guard_release', '@__cxa_guard_abort', '@__cxa_atexit', '@__clang_call_terminate',
            '@__cxa_get_exception_ptr', '@_ZSt17__throw_bad_allocv', '@__cxa_bad_cast', '@__cxa_bad_typeid',
@@ -607,6 +607,8 @@ RUNTIME_BODIES = {
  '@_ZnwmRKSt9nothrow_t': '{ void* p = malloc(a0); __CPROVER_assume(p != 0); return (RET)p; }',
  '@_ZnamRKSt9nothrow_t': '{ void* p = malloc(a0); __CPROVER_assume(p != 0); return (RET)p; }',
  '@_ZdlPv': '{ free((void*)a0); }', '@_ZdaPv': '{ free((void*)a0); }', '@_ZdlPvm': '{ free((void*)a0); }', '@_ZdaPvm': '{ free((void*)a0); }',
+ '@abs': '{ int32_t v = (int32_t)a0; return (RET)(uint32_t)(v < 0 ? -v : v); }',
+ '@labs': '{ int64_t v = (int64_t)a0; return (RET)(uint64_t)(v < 0 ? -v : v); }',
  '@div': '{ int32_t q = (int32_t)a0 / (int32_t)a1; int32_t r = (int32_t)a0 % (int32_t)a1; return (RET)(((uint64_t)(uint32_t)r << 32) | (uint64_t)(uint32_t)q); }',
  '@__cxa_guard_acquire': '{ return (RET)(*(uint8_t*)a0 == 0); }',
  '@__cxa_guard_release': '{ *(uint8_t*)a0 = 1; }',
